@@ -105,6 +105,35 @@ def l2_krylov_invariant(run, rng, quick):
                                A=dict(re=a.real.tolist(), im=np.imag(a).tolist()), v=dict(re=np.real(v).tolist(), im=np.imag(v).tolist()),
                                what="start vector in an invariant subspace of dimension m: the closed Lanczos recurrence is exact (RenoVerif.Krylov.krylov_exact)"))
     run.cov["krylov_invariant_cases"] = done
+    # long recurrences (more than 50 Lanczos vectors, the default block size: buffer growth, loss of orthogonality):
+    # large |dt| * spectral width, real-time (complex basis) and imaginary-time steps
+    nlong = 0
+    for _ in range(6 if quick else 40):
+        n = int(rng.integers(120, 260))
+        cplx = bool(rng.random() < 0.6)
+        h = rng.normal(size=(n, n)) + (1j * rng.normal(size=(n, n)) if cplx else 0)
+        a = (h + h.conj().T) / 2
+        w = np.linalg.eigvalsh(a)
+        width = float(w[-1] - w[0])
+        real_time = bool(rng.random() < 0.7)
+        x = float(rng.uniform(45, 90)) * 2 / width          # width * |dt| / 2 in [45, 90]
+        dt = (1j if rng.random() < 0.5 else -1j) * x if real_time else -x / 6
+        v = rng.normal(size=n) + (1j * rng.normal(size=n) if (cplx or real_time or rng.random() < 0.5) else 0)
+        bs = int(rng.choice([5, 50, 50]))
+        try:
+            got, j = expm_krylov(lambda y: a @ y, dt, v.copy(), block_size=bs)
+        except Exception as e:  # noqa
+            run.violation(f"krylov:long-recurrence:raises:{type(e).__name__}", dict(n=n, complex_A=cplx, dt=str(dt), block_size=bs, error=repr(e)[:200]))
+            continue
+        ref = scipy.linalg.expm(dt * a) @ v
+        err = float(np.linalg.norm(np.asarray(got).ravel() - ref) / np.linalg.norm(ref))
+        nlong += 1
+        run.count(f"krylov-long:{'real-time' if real_time else 'imag-time'}:{'complexA' if cplx else 'realA'}:steps>{50 if j > 50 else 0}")
+        if err > 1e-5:
+            run.violation(f"krylov:long-recurrence:{'real-time' if real_time else 'imag-time'}:error",
+                          dict(n=n, complex_A=cplx, dt=str(dt), block_size=bs, rel_err=err, krylov_steps=int(j), np_seed_hint="matrix = (h+h^H)/2 of the run's RNG stream",
+                               what="a local problem that needs more than 50 Lanczos vectors is propagated wrongly"))
+    run.cov["krylov_long_recurrences"] = nlong
     return done
 
 
